@@ -295,17 +295,17 @@ impl SourceCursor {
             let ch = self.peek_n(0);
             match ch {
                 '0'..='9' => {
-                    no = no << 4 | ch as isize - '0' as isize;
+                    no = no.saturating_mul(16) | ch as isize - '0' as isize;
                     self.next();
                     continue;
                 },
                 'a'..='f' => {
-                    no = (no << 4) | (0x0a + (ch as isize - 'a' as isize));
+                    no = no.saturating_mul(16) | (0x0a + (ch as isize - 'a' as isize));
                     self.next();
                     continue;
                 },
                 'A'..='F' => {
-                    no = (no << 4) | (0x0a + (ch as isize - 'A' as isize));
+                    no = no.saturating_mul(16) | (0x0a + (ch as isize - 'A' as isize));
                     self.next();
                     continue;
                 },
@@ -340,7 +340,7 @@ impl SourceCursor {
                 let ch = self.peek_n(0);
                 match ch {
                     '0'..='8' => {
-                        no = no * 8 + (ch as isize - '0' as isize);
+                        no = no.saturating_mul(8).saturating_add(ch as isize - '0' as isize);
                         self.next();
                         continue;
                     },
@@ -355,7 +355,7 @@ impl SourceCursor {
             let ch = self.peek_n(0);
             match ch {
                 '0'..='9' => {
-                    no = no * 10 + (ch as isize - '0' as isize);
+                    no = no.saturating_mul(10).saturating_add(ch as isize - '0' as isize);
                     self.next();
                 },
                 _ => break,
